@@ -2537,6 +2537,13 @@ fn run_serde(case: &Value) -> Value {
         Err(_) => None,
     };
     let policies_before = policies(&s0);
+    // the same keys with the version taken apart (for the model's key encoding)
+    let policy_typed: Vec<Value> = s0
+        .config
+        .policy
+        .iter()
+        .map(|(n, v, _)| json!([n, v.map(|v| v.semver.to_string()), v.and_then(|v| v.git_rev.clone())]))
+        .collect();
     let policies_after = r1b.as_ref().ok().map(policies);
     // typed fields of every entry next to what the real Serialize impl makes of it, for
     // the comparison with the model's encoding layer
@@ -2573,7 +2580,7 @@ fn run_serde(case: &Value) -> Value {
             "suggest": e.suggest, "notes": e.notes}, "json": serde_json::to_value(e).unwrap_or(Value::Null)}));
     }
     json!({"status": "ok", "obs": obs, "entries": entries, "debug_equal": debug_equal,
-           "policies_before": policies_before, "policies_after": policies_after, "written": {"config": t1["config.toml"], "audits": t1["audits.toml"], "imports": t1["imports.lock"]},
+           "policies_before": policies_before, "policies_after": policies_after, "policy_typed": policy_typed, "written": {"config": t1["config.toml"], "audits": t1["audits.toml"], "imports": t1["imports.lock"]},
            "values": store_json(&s0), "values_reread": r1b.as_ref().ok().map(store_json)})
 }
 
